@@ -1,9 +1,11 @@
 ENTRY = dict(
-    runner="C11", pkg="./cmd/c11", corr=["Corr.C11Corr"], n=dict(quick=1200, thorough=1200), runner_timeout=900,
+    runner="C11", pkg="./cmd/c11", corr=["Corr.C11Corr"], n=dict(quick=1118, thorough=1118), runner_timeout=900,
     rule="every predefined parrot (38) over loopback TCP against the STOCK server of the utls package (tls.Server): TLS 1.3; "
          "TLS 1.3 with a HelloRetryRequest (server CurvePreferences = P-256 resp. P-384 only); TLS 1.2 (server MaxVersion); server "
          "ALPN preferences {h2+http/1.1, http/1.1, none}; resumption at 1.3 and 1.2 (shared LRU ClientSessionCache, tickets on, "
-         "second connection judged); server-name variants: RemoveSNIExtension (1.3 and 1.2), IP-literal Config.ServerName, the "
+         "second connection judged) with the server's ALPN preferences on the resumed connection the same / another protocol / none / "
+         "one where the first had none; server-name variants: RemoveSNIExtension (1.3 and 1.2), IPv4 and bracketed IPv6 literals, mixed "
+         "and upper case, trailing dot, punycode labels, a 253-character name, the "
          "parrot's spec with the SNI extension deleted (HelloCustom + ApplyPreset); against the SCRIPTED server (verif_server.go) the flight "
          "shapes the stock one never sends: CompressedCertificate(brotli) with and without HelloRetryRequest, application_settings "
          "(17513 / 17613) answered by a client EncryptedExtensions message. Rows whose handshake does not succeed are "
@@ -13,7 +15,7 @@ ENTRY = dict(
          "seeded random (label, context incl. nil/empty, length 1..255) triples, one of length 255. Coq: CName (server-name model "
          "on uconn.Extensions) for every successful row, CState (Complete.client_run10 with the tree's key-selection rule - detected by "
          "reflection on KeySharePrivateKeys.ExtraEcdhe - and the retained-key shape, and server_state, on the flight parsed from the "
-         "server's plaintext messages) for every successful row except TLS 1.2 resumptions. Distinct by (parrot, variant); CName "
+         "server's plaintext messages) for every successful non-server-name row, CResume12 (Transcript.client_resume12) for TLS 1.2 resumptions. Distinct by (parrot, variant); CName "
          "is non-trivial when an SNI extension is on the wire or the row is a server-name variant.",
     trusted_base=["stock utls server as the peer (verif_server.go scripted server for the compressed-certificate and ALPS rows); verif_c12.go accessors (VerifClientViewOf, VerifCurveID)",
                   "harness/hs recording conn, ClientHello parser; the runner's ServerHello / ServerKeyExchange parser",
@@ -22,7 +24,7 @@ ENTRY = dict(
     assumes=["no ECH (rows with ECH are not run: the stock peer would need the C15 ECH key setup; ECHAccepted is compared as false/false)",
              "at most one SNI extension in uconn.Extensions (two server_name extensions are refused by any server)",
              "both ends derive the same master secret (key agreement is exercised by the runs, not modelled)",
-             "TLS 1.2 session resumption is outside Negotiate.v: those rows are judged by the Go-side oracle only"],
+             "TLS 1.2 session-id (ticketless) resumption is not run: the stock server resumes by ticket only"],
     level_text="Proof for every flight shape that client and server feed identical bytes to the transcript hash up to the server "
                "Finished and up to the client Finished (HRR message-hash substitution, compressed certificate as sent, client ALPS "
                "EncryptedExtensions, client certificate), hence equal exporter output for any hash/KDF/exporter; proof for every "
